@@ -100,6 +100,49 @@ class Stage:
         return ok, out
 
 
+def syntax_probe(pid, probes, prelude, flags=(), cmd=None):
+    """Compiles each snippet with -fsyntax-only (parallel, cached). Returns {name: (ok, first_error_line)}.
+    Used to find declared templates whose bodies do not instantiate (a hard error SFINAE cannot see)."""
+    cmd = list(cmd or OPT)
+    d = os.path.join(BUILD, pid, 'probe')
+    os.makedirs(d, exist_ok=True)
+    res = {}
+
+    def one(item):
+        name, code = item
+        src = prelude + '\n' + code + '\n'
+        h = hashlib.sha256((src + ' '.join(cmd + list(flags)) + repo_hash()).encode()).hexdigest()[:20]
+        marker = os.path.join(d, h)
+        if os.path.exists(marker):
+            with open(marker) as f:
+                t = f.read()
+            return name, (t.startswith('ok'), t[3:].strip())
+        p = subprocess.run(cmd + list(flags) + ['-fsyntax-only', '-x', 'c++', '-'], input=src, stdout=subprocess.PIPE, stderr=subprocess.STDOUT, text=True)
+        ok = p.returncode == 0
+        err = ''
+        if not ok:
+            el = [l for l in p.stdout.splitlines() if 'error' in l]
+            err = (el[0] if el else p.stdout[:200]).replace(REPO, '<repo>')[:300]
+        with open(marker, 'w') as f:
+            f.write(('ok \n' if ok else 'no ' + err + '\n'))
+        return name, (ok, err)
+
+    with cf.ThreadPoolExecutor(max_workers=NCPU) as ex:
+        for name, r in ex.map(one, sorted(probes.items())):
+            res[name] = r
+    return res
+
+
+def write_if_changed(path, text):
+    os.makedirs(os.path.dirname(path), exist_ok=True)
+    if os.path.exists(path):
+        with open(path) as f:
+            if f.read() == text:
+                return
+    with open(path, 'w') as f:
+        f.write(text)
+
+
 def prune_builds(pid, keep):
     """Bound disk use: keep only the directories used by this run (plus nothing else) per property."""
     d = os.path.join(BUILD, pid)
@@ -175,7 +218,7 @@ def write_replay(pid, stage, target, key, choices, case, detail, where=FOUND):
 
 
 def replay_file(pid, spec, path, times=1, tier='quick'):
-    """Replays a stored case in fresh processes. Returns (fails_every_time, key, output)."""
+    """Replays a stored case in fresh processes. Returns (fails_every_time_with_its_key, keys, output)."""
     with open(path) as f:
         rp = json.load(f)
     st = next((s for s in spec['stages'] if s.name == rp.get('stage')), spec['stages'][0])
@@ -184,6 +227,7 @@ def replay_file(pid, spec, path, times=1, tier='quick'):
         if not ok:
             return None, None, out
     allfail, key, outtxt = True, None, ''
+    want = rp.get('key')
     env = dict(os.environ)
     env.update({'ASAN_OPTIONS': 'detect_leaks=0', 'UBSAN_OPTIONS': 'print_stacktrace=1', 'VERIF_TIER': tier, 'VERIF_REPO': REPO})
     env.update(st.env)
@@ -192,9 +236,13 @@ def replay_file(pid, spec, path, times=1, tier='quick'):
         outtxt = p.stdout
         failed = p.returncode != 0 and p.returncode != 2
         if p.returncode == 1:
+            keys = []
             for l in p.stdout.splitlines():
-                if l.startswith('REPLAY ') and ' key=' in l:
-                    key = l.split(' key=', 1)[1].strip()
+                if l.startswith('REPLAY ') and ' keys=' in l:
+                    keys = l.split(' keys=', 1)[1].split()
+            key = want if want in keys else (keys[0] if keys else None)
+            if want and want not in ('crash', 'fixed') and want not in keys and not any(fnmatch.fnmatchcase(k2, want) for k2 in keys):
+                failed = False
         elif failed:
             key = 'crash'
         allfail = allfail and failed
@@ -279,7 +327,10 @@ def run_check(pid, spec, tier, seed, only_stage=None):
         st = next((s for s in stages if s.name == k.get('stage')), None)
         if st is None:
             continue
-        path = write_replay(pid, st.name, k['target'], k['key'], k['choices'], k.get('what', ''), '', where=os.path.join(BUILD, pid, 'regress'))
+        bare = k['key'].split(':', 1)[1] if ':' in k['key'] else k['key']
+        if any(ch in bare for ch in '*?['):
+            bare = ''
+        path = write_replay(pid, st.name, k['target'], bare, k['choices'], k.get('what', ''), '', where=os.path.join(BUILD, pid, 'regress'))
         allfail, key, _ = replay_file(pid, spec, path, 1, tier)
         if allfail:
             known_hits.setdefault(k['key'], {'count': 0, 'what': k.get('what', ''), 'example': k.get('what', '')})
